@@ -113,9 +113,11 @@ class _FakeEioBase:
             return deco
         self.h[ev] = h
 
+    idprefix = 'S'      # hosts of a cluster get distinct prefixes (engine.io ids are globally unique)
+
     def generate_id(self):
         self.n += 1
-        return 'S%d' % self.n
+        return '%s%d' % (self.idprefix, self.n)
 
     def _deliver(self, eio_sid, data):
         tr = self.t.get(eio_sid)
